@@ -38,7 +38,7 @@ SCOPE = {
              '1-8 outputs, MSE and L1 loss, tol in {0, 1e-3, 0.25, 0.5, 1, 2, exact first improvement}, max_iter in {-1, 0, 1, 2, 3, 4}, batch sizes 1-64, '
              'int8 / float32 X; targets: random, or the model output with a motif planted at the LAST fitting position / the first position / a random position, '
              'or with 2-4 motifs planted (multi-step paths)',
-    'thorough': 'as quick with 20000 seeded random cases',
+    'thorough': 'as quick with 40000 seeded random cases',
 }
 
 F64 = torch.float64
@@ -363,7 +363,7 @@ def _gen(g, k):
 def run(rep):
     thorough = rep.tier == 'thorough'
     g = rep.rng
-    n = 20000 if thorough else 2500
+    n = 40000 if thorough else 2500
     for k in range(n):
         if rep.out_of_time():
             rep.note('time budget reached after %d cases' % k)
